@@ -6,6 +6,7 @@ import Model.Store.Project
 import Model.Store.Search
 import Lemmas.StoreSqlSmallScope
 import Lemmas.StoreSqlFrame
+import Lemmas.LogTimeAccept
 /-! C04 — what the read API reports is the replay of the log   (**PARTIAL**: see `checks/c04.py` META).
 
 Stage 1 (this part of the file): the laws of `Store.replay`, the independent fold the property speaks about.  They hold
@@ -357,7 +358,10 @@ the four history triggers, …) fill the tables; `StoreSql.discrepancies` compar
 (iii) metadata and its revisions, (iv) `reverted_at`, and `frameBad` is (v): rows of other ledgers untouched, step by step. -/
 open StoreSql Sql Schema
 
-/-- the statement one would like (**NOT a theorem**: `projection_refines_replay_fails` refutes it) -/
+/-- the statement one would like for EVERY log sequence.  It is **not proved**: what is proved below is its restriction to
+all histories of ≤ 2 entries over a small alphabet (`projection_refines_replay_partial_small_scope`), one rich history, and
+unbounded facts about some of the generated functions.  Before the repairs of `0-init-schema.sql` (fixes/c04-backdated-move.diff, fixes/c04-self-posting.diff) it was
+FALSE (`wBackdated`, `wSelf` below were counterexamples); no counterexample is known for the current schema. -/
 def ProjectionRefinesReplay : Prop := ∀ logs : List CLog, discrepancies logs = [] ∧ frameBad logs = []
 
 /-- DESIGN §6 #24: alice receives 10 dated 100, then 5 dated 50 (a transaction dated before every existing move) -/
@@ -369,46 +373,58 @@ def wBackdated : List CLog := [
 def wSelf : List CLog := [ ⟨"l", 0, 100, "", .newTx ⟨0, [⟨"world", "world", "USD", 10⟩], [], 100, ""⟩ []⟩ ]
 
 set_option maxRecDepth 100000 in
-/-- **clause (ii) fails** on `wBackdated`: the move that `get_all_account_effective_volumes` picks for alice/USD at effective
-date 50 carries NULL volumes (`null + 5`), where the replay says input 5, output 0; at date 100 the figures are right. -/
-theorem projection_effective_volumes_null :
-    Val.isNullB (col (lastEffectiveMove (project wBackdated) "l" "alice" "USD" 50) (fun r => r.post_commit_effective_volumes)) = true ∧
-    input (replay wBackdated "l") (When.effectiveBy 50) "alice" "USD" = 5 ∧
+/-- clause (ii) on `wBackdated` (it failed before `insert_move` reset the effective totals when its second `select … into`
+finds no row: the move carried NULL, `null + 5`): the move that `get_all_account_effective_volumes` picks for alice/USD at
+effective date 50 carries (5, 0), the one at date 100 carries (15, 0) — the replayed figures — and no clause differs. -/
+theorem projection_backdated_move_effective_volumes :
+    (col (lastEffectiveMove (project wBackdated) "l" "alice" "USD" 50) (fun r => r.post_commit_effective_volumes) == volPair 5 0) = true ∧
+    (input (replay wBackdated "l") (When.effectiveBy 50) "alice" "USD", output (replay wBackdated "l") (When.effectiveBy 50) "alice" "USD") = (5, 0) ∧
     (col (lastEffectiveMove (project wBackdated) "l" "alice" "USD" 100) (fun r => r.post_commit_effective_volumes) == volPair 15 0) = true ∧
-    (discrepancies wBackdated).map (fun d => (d.cls, d.account)) = [("effective-volumes-null", "world"), ("effective-volumes-null", "alice")] := by
+    (col (lastEffectiveMove (project wBackdated) "l" "world" "USD" 50) (fun r => r.post_commit_effective_volumes) == volPair 0 5) = true ∧
+    discrepancies wBackdated = [] := by
   decide
 
 set_option maxRecDepth 100000 in
-/-- **clause (i) fails** on `wSelf`: `insert_posting` computes `_source_exists` and `_destination_exists` before it creates the
-account, so the destination move starts again from (0, 0): the latest move of world/USD says input 10, output 0 — the tables
-report a balance of +10 and inputs ≠ outputs, where the replay says 10 / 10. -/
-theorem projection_self_posting_breaks_volumes :
-    (col (lastMove (project wSelf) "l" "world" "USD") (fun r => r.post_commit_volumes) == volPair 10 0) = true ∧
+/-- clause (i) on `wSelf` (it failed while `insert_posting` looked up `_destination_exists` before the account was created: the
+destination move started again from (0, 0) and the tables reported input 10, output 0): the latest move of world/USD says
+input 10, output 10, as the replay does, and no clause differs. -/
+theorem projection_self_posting_new_account :
+    (col (lastMove (project wSelf) "l" "world" "USD") (fun r => r.post_commit_volumes) == volPair 10 10) = true ∧
     (input (replay wSelf "l") When.always "world" "USD", output (replay wSelf "l") When.always "world" "USD") = (10, 10) ∧
-    (discrepancies wSelf).map (fun d => d.cls) = ["volumes", "effective-volumes"] := by
+    (col (lastEffectiveMove (project wSelf) "l" "world" "USD" 100) (fun r => r.post_commit_effective_volumes) == volPair 10 10) = true ∧
+    discrepancies wSelf = [] := by
   decide
 
-theorem projection_refines_replay_fails : ¬ ProjectionRefinesReplay := by
-  intro h
-  have h1 := (h wSelf).1
-  have h2 := projection_self_posting_breaks_volumes.2.2
-  rw [h1] at h2
-  cases h2
-
-/-- DESIGN §6 #25: a transaction at instant 1000 written with offset +02:00 (7 200 000 000 µs) -/
+/-- DESIGN §6 #25: a transaction at instant 1000 whose STORED timestamp text carries the offset +02:00 (7 200 000 000 µs) -/
 def wZoned : List (CLog × Int) := [ (⟨"l", 0, 2000, "", .newTx ⟨0, [⟨"world", "alice", "USD", 1⟩], [], 1000, ""⟩ []⟩, 7200000000) ]
 
 set_option maxRecDepth 100000 in
-/-- the projection files the transaction under its wall-clock time, two hours after its instant: `timestamp`, and the
-`effective_date` of its moves -/
+/-- what the SQL does with an offset in the stored text (**latent** since `ParseTime` converts to UTC — fixes/c04-parsetime-utc.diff;
+`stored_timestamps_are_utc` below): `::timestamp without time zone` ignores it, the projection files the transaction under its
+wall-clock time, two hours after its instant: `timestamp`, and the `effective_date` of its moves.  The check observes on every run
+that the text the real code marshals carries no offset, and feeds whatever it observes to this model. -/
 theorem projection_timestamp_offset_dropped :
     ((txRows (projectO wZoned) "l").map (fun r => r.timestamp == Val.ts 7200001000)) = [true] ∧
     ((moveRows (projectO wZoned) "l").map (fun r => r.effective_date == Val.ts 7200001000)) = [true, true] ∧
     (discrepanciesO wZoned).map (fun d => d.cls) = ["effective-volumes-null", "effective-volumes-null", "transaction-timestamp"] := by
   decide
 
+set_option maxRecDepth 100000 in
+/-- the same transaction stored as a UTC text: filed under its instant, no clause differs -/
+theorem projection_timestamp_utc :
+    ((txRows (projectO (wZoned.map (fun x => (x.1, 0)))) "l").map (fun r => r.timestamp == Val.ts 1000)) = [true] ∧
+    discrepanciesO (wZoned.map (fun x => (x.1, 0))) = [] := by
+  decide
+
+/-- every timestamp the API accepts is handed on — and therefore marshalled into the stored payload — with offset 0
+(model D of `ParseTime`, tied to the real one by C13's differential; `LogM.formatTime` prints offset 0 as `Z`) -/
+theorem stored_timestamps_are_utc (s : String) (t : LogM.Time) (h : LogM.parseTime s = .ok t) :
+    t.off = 0 ∧ LogM.fmtZone t.off = ['Z'] := by
+  have := (LogM.parseTime_wf s t h).2.2.2.2.2.2.2.2.2.2.2
+  exact ⟨this, by rw [this]; rfl⟩
+
 /-- a bucket of two ledgers with back- and future-dated transactions, a self-posting on an existing account, a revert,
-account metadata written by a script, metadata set / delete on accounts and on a transaction — none of the two shapes -/
+account metadata written by a script, metadata set / delete on accounts and on a transaction -/
 def exLogs2 : List CLog := [
   ⟨"l1", 0, 100, "k0", .newTx ⟨0, [⟨"world", "alice", "USD", 1180591620717411303424⟩], [("t", "a")], 50, "r0"⟩ [("alice", [("tier", "gold")]), ("carol", [("x", "y")])]⟩,
   ⟨"l2", 0, 101, "", .newTx ⟨0, [⟨"world", "alice", "USD", 7⟩], [], 300, ""⟩ []⟩,
@@ -432,9 +448,8 @@ theorem projection_refines_replay_partial_example :
 /-- `projection_refines_replay`, **partial — exhaustive small scope, checked by the kernel** (`Lemmas/StoreSqlSmallScope.lean`
 holds the evaluation so that it is cached on its own): for EVERY history of one or two entries over the alphabet of
 `Model/Store/Search.lean` (316 histories: sends a→b, b→a, a→a dated before / at / after everything, script metadata, reverts,
-metadata set and delete on an account and a transaction, a second ledger), the generated projection differs from the replay
-ONLY at an (account, asset) that has one of the two shapes (`projection_self_posting_breaks_volumes`,
-`projection_effective_volumes_null`), and never touches another ledger's rows.
+metadata set and delete on an account and a transaction, a second ledger), the generated projection agrees with the replay on
+every clause (i)–(iv) — `discrepancies = []`, no (account, asset) excepted — and never touches another ledger's rows (v).
 What is missing for the full theorem: an induction over arbitrary log sequences through the generated definitions
 (the executable comparison of the check covers longer histories by sampling and by enumeration to depth 3 / 4). -/
 theorem projection_refines_replay_partial_small_scope : (Search.histories 2).all smallScopeOk = true :=
